@@ -4,6 +4,7 @@ import (
 	"fmt"
 	"os"
 	"path/filepath"
+	"strconv"
 	"strings"
 	"unicode"
 	"unicode/utf8"
@@ -18,6 +19,7 @@ type C06Case struct {
 	NameRaw  []byte     `json:"name_raw"` // TB name (arbitrary bytes)
 	ViaFlag  bool       `json:"via_flag,omitempty"`
 	LongLine int        `json:"longline,omitempty"` // longest output line requested (bytes)
+	Stale    int        `json:"stale,omitempty"`    // fail files of earlier failures (all-zero words of various lengths) already present
 }
 
 type c06 struct{}
@@ -56,6 +58,9 @@ func (c06) Gen(dt *drv.T, c *Ctx) any {
 	cs := &C06Case{Case: &CheckCase{}}
 	cs.NameRaw = genName(dt)
 	cs.ViaFlag = chance(dt, "viaflag", 30)
+	if chance(dt, "stale", 30) {
+		cs.Stale = drv.IntRange(1, 3).Draw(dt, "nstale")
+	}
 	p := &Prog{}
 	shape := pick(dt, "shape", "normal", "normal", "nodraw", "longstream", "hugedraw")
 	label := 0
@@ -133,7 +138,23 @@ func (c06) Run(c *Ctx, csAny any) Outcome {
 	cfg.Name = string(cs.NameRaw)
 	prog := cs.Case.Prog
 
+	// fail files left by earlier failures of this test may be present already
+	stale := map[string]bool{}
+	if cs.Stale > 0 {
+		if base, version, ok := subjectFailFile(cfg.Name); ok {
+			for i := 0; i < cs.Stale; i++ {
+				p := strings.TrimSuffix(base, ".fail") + fmt.Sprintf("-0stale%d.fail", i)
+				writeFailFile(p, version, 11, make([]uint64, 2+7*i), "left by an earlier failure")
+				stale[p] = true
+			}
+			out.Classes = append(out.Classes, "stale-files-present")
+		}
+	}
 	r1 := runProg(cfg, prog)
+	if r1.Rep.FailFile != "" && stale[r1.Rep.FailFile] {
+		out.Classes = append(out.Classes, "stale-file-reproduces-by-chance")
+		return out // the run failed from a pre-existing file: nothing new is persisted, by design
+	}
 	if r1.Obs.Escaped != nil {
 		out.Viol = violf("C06:panic-escaped-check", "a panic escaped rapid.Check: %v", r1.Obs.Escaped)
 		return out
@@ -143,7 +164,12 @@ func (c06) Run(c *Ctx, csAny any) Outcome {
 		return out
 	}
 	words1len := -1
-	files := FailFiles()
+	var files []string
+	for _, f := range FailFiles() {
+		if !stale[f] {
+			files = append(files, f)
+		}
+	}
 	if len(files) != 1 {
 		reason := ""
 		for _, m := range r1.Obs.Msgs {
@@ -154,7 +180,7 @@ func (c06) Run(c *Ctx, csAny any) Outcome {
 		out.Viol = violf("C06:not-persisted", "name %q: %d fail files below testdata/rapid after a failing Check (%v) %s", cfg.Name, len(files), AllFiles(), reason)
 		return out
 	}
-	if v := oracleFailFileReplays(r1, prog); v != nil {
+	if v := oracleFailFileReplaysPath(r1, prog, files[0]); v != nil {
 		out.Viol = prefixKey("C06", v)
 		return out
 	}
@@ -207,7 +233,16 @@ func (c06) Run(c *Ctx, csAny any) Outcome {
 	}
 	ignored := ""
 	for _, m := range r2.Obs.Msgs {
-		if strings.Contains(m.Text, "ignoring fail file") || strings.Contains(m.Text, "no longer valid") {
+		aboutStale := false
+		for sp := range stale {
+			if strings.Contains(m.Text, sp) || strings.Contains(m.Text, strconv.Quote(sp)) {
+				aboutStale = true
+			}
+		}
+		if aboutStale {
+			continue // a stale file that passes or is invalid now is expected to be reported as such
+		}
+		if strings.Contains(m.Text, "ignoring fail file") || strings.Contains(m.Text, "no longer valid") || strings.Contains(m.Text, "no longer reproduces") {
 			ignored = firstLine(m.Text)
 			if len(ignored) > 300 {
 				ignored = ignored[:300]
@@ -222,10 +257,16 @@ func (c06) Run(c *Ctx, csAny any) Outcome {
 		out.Viol = violf(key, "name %q, longest output line ~%d bytes: the next run ignored the file it had written: %s", name, cs.LongLine, ignored)
 		return out
 	}
-	if len(r2.X.Log) == 0 || !r2.X.Log[0].Same(want) {
+	first := 0 // the stale files (now passing or invalid) are replayed before it, one invocation each
+	if !cs.ViaFlag {
+		for first < len(stale) && first < len(r2.X.Log) && !r2.X.Log[first].Falsified {
+			first++
+		}
+	}
+	if len(r2.X.Log) <= first || !r2.X.Log[first].Same(want) {
 		got := "<no invocation>"
-		if len(r2.X.Log) > 0 {
-			got = r2.X.Log[0].Outcome()
+		if len(r2.X.Log) > first {
+			got = r2.X.Log[first].Outcome()
 		}
 		out.Viol = violf("C06:not-replayed-first", "name %q: the first test case of the next run is [%s], the persisted one was [%s]", name, got, want.Outcome())
 		return out
@@ -242,7 +283,13 @@ func (c06) Run(c *Ctx, csAny any) Outcome {
 		out.Viol = violf("C06:file-not-named", "the replay names fail file %q, the persisted file is %q", r2.Rep.FailFile, files[0])
 		return out
 	}
-	if after := FailFiles(); len(after) != 1 || after[0] != files[0] {
+	var after []string
+	for _, f := range FailFiles() {
+		if !stale[f] {
+			after = append(after, f)
+		}
+	}
+	if len(after) != 1 || after[0] != files[0] {
 		out.Viol = violf("C06:extra-file-written", "files after the replay run: %v (before: %v)", after, files)
 		return out
 	}
